@@ -407,6 +407,16 @@ class State:
     def term_bounds(self, t):
         if t.sym is None:
             return t.c, t.c
+        if t.sym[0] == "sum":
+            lo = hi = t.c
+            for (s, k) in t.sym[1]:
+                slo, shi = self.sym_bounds(s)
+                if slo is None:
+                    return None, None
+                k2 = k * t.k
+                lo += k2 * slo if k2 > 0 else k2 * shi
+                hi += k2 * shi if k2 > 0 else k2 * slo
+            return lo, hi
         lo, hi = self.sym_bounds(t.sym)
         if lo is None:
             return None, None
